@@ -102,5 +102,23 @@ def refSub (f : Nat → L4) (x y : L4) : L4 :=
 def maskP (m : Nat) : L4 := ⟨Nat.land m 18446744069414583343, m, m, m⟩
 def maskN (m : Nat) : L4 := ⟨Nat.land m 13822214165235122497, Nat.land m 13451932020343611451, Nat.land m 18446744073709551614, m⟩
 
+/-- add a single word into the low limb of a 5-limb accumulator (4-limb carry chain, carry folded into the top limb) -/
+def add4c (a : L5) (v : Nat) : L5 :=
+  let s0 := add64 a.l0 v 0
+  let s1 := add64 a.l1 0 s0.2
+  let s2 := add64 a.l2 0 s1.2
+  let s3 := add64 a.l3 0 s2.2
+  ⟨s0.1, s1.1, s2.1, s3.1, wadd s3.2 a.l4⟩
+
+/-- Fiat `FromMontgomery`: four reduction steps, feeding one input limb before each of the last three -/
+def refFromMont (M : Modulus) (x : L4) : L4 :=
+  let a0 := redStep M ⟨x.l0, 0, 0, 0, 0⟩
+  let a1 := redStep M (add4c a0 x.l1)
+  let a2 := redStep M (add4c a1 x.l2)
+  let a3 := redStep M (add4c a2 x.l3)
+  condSub M a3
+
+def R2n : L4 := ⟨9902555850136342848, 8364476168144746616, 16616019711348246470, 11342065889886772165⟩
+
 def Mp : Modulus := ⟨0xfffffffefffffc2f, 0xffffffffffffffff, 0xffffffffffffffff, 0xffffffffffffffff, 0xd838091dd2253531⟩
 def Mn : Modulus := ⟨0xbfd25e8cd0364141, 0xbaaedce6af48a03b, 0xfffffffffffffffe, 0xffffffffffffffff, 0x4b0dff665588b13f⟩
